@@ -43,3 +43,19 @@ Example C12_example :
   let '(_, o2) := step s1 (OMatch ASnap 1 [84]%N (POk [97]%N)) in
   o_path o2 = [47;83;47;120;95;116;101;115;116;46;115;110;97;112]%N.
 Proof. vm_compute. reflexivity. Qed.
+
+(* non-vacuity: every theorem of this file that has hypotheses has a concrete, non-trivial instance meeting ALL of them
+   (lemmas <Theorem>_witness / <Theorem>_applied in Proofs/WitnessesP.v); a representative one is restated here *)
+From Snaps Require Import Proofs.WitnessesP.
+Example C12_witnesses :
+  (Forall call_op w12_ops /\ s_cfgs w12_s0 = w12_cfgs /\ map o_outcome (snd (run w12_s0 w12_ops)) = w12_outcomes) /\
+  (is_standalone AYaml = false /\ ~ (AYaml = ASnap /\ w12_p = PNoValues) /\
+   multi_call w12_s1 AYaml w12_c1 w12_tB w12_p =
+     (fst (multi_call w12_s1 AYaml w12_c1 w12_tB w12_p), snd (multi_call w12_s1 AYaml w12_c1 w12_tB w12_p)) /\
+   snapshot_path w12_c1 (s_caller w12_s1) w12_tB false = w12_path_multi) /\
+  (stand_call w12_s1 AStand w12_c1 w12_tB w12_p =
+     (fst (stand_call w12_s1 AStand w12_c1 w12_tB w12_p), snd (stand_call w12_s1 AStand w12_c1 w12_tB w12_p)) /\
+   subst_d (snapshot_path w12_c1 (s_caller w12_s1) w12_tB true)
+           (Dec.dec (S (get1 (s_srunning w12_s1) (snapshot_path w12_c1 (s_caller w12_s1) w12_tB true)))) = w12_path_stand) /\
+  nth_error (s_cfgs w12_s1) w12_h = Some w12_c1.
+Proof. exact C12_witnesses_all. Qed.
